@@ -35,6 +35,7 @@ type Opts struct {
 	BackoffMult            float64
 	ConnectTimeout         time.Duration
 	Handlers               int // number of recording data handlers (default 2)
+	NoDataHandlers         bool // register no data handler (the harness registers its own)
 	NoStateHandler         bool
 	AsyncErrHandler        bool
 }
@@ -175,6 +176,9 @@ func New(w *core.World, o Opts) *Rig {
 	nh := o.Handlers
 	if nh == 0 {
 		nh = 2
+	}
+	if o.NoDataHandlers {
+		nh = 0
 	}
 	for i := 0; i < nh; i++ {
 		i := i
